@@ -37,7 +37,7 @@ VALUES = ["1", "2"]
 DOMAINS = ["ex.com", ".ex.com", "EX.com", "sub.ex.com", "other.org", None]
 TARGETS = ["ex.com", "sub.ex.com", "www.ex.com", "x.sub.ex.com", "other.org", "badex.com",
            "ex.com.evil", "EX.COM", "Sub.Ex.Com", "com", ""]
-CLIENT = [None, "z=9", ""]
+CLIENT = [None, "a=1", "1", ""]      # caller cookies that also occur inside typical jar contents: nothing may be "de-duplicated"
 
 
 def cookie_str(n, v, d):
